@@ -118,6 +118,18 @@ def gen_loc(rng, n, allow_bridging=True):
     return gen_bridging(rng, n)
 
 
+def gen_collection_loc(rng, n):
+    """ what a CDSCollection accepts: one part, or a forward span [s,n)+[0,e) """
+    r = rng.random()
+    if r < 0.15:
+        return [(0, n, 1)]
+    if r < 0.6 or n < 3:
+        return gen_simple(rng, n, rng.choice([1, -1, NONE]))
+    s = rng.randrange(1, n)
+    e = rng.randrange(1, s + 1)
+    return [(s, n, 1), (0, e, 1)]
+
+
 def gen_n(rng):
     r = rng.random()
     if r < 0.6:
@@ -176,6 +188,23 @@ def impl(fn, args):
     if fn == 11:
         a, s, undo = args
         return result(lambda: enc_pyloc(L.frameshift_location_by_qualifier(mk_loc(a), s, undo=bool(undo))))
+    if fn == 12:
+        a, b, src = args
+
+        def go():
+            from antismash.common.secmet.features import Feature
+            left = Feature(mk_loc(a), feature_type="source" if src == 1 else "misc_feature")
+            if src > 1:   # the right-hand side as a feature instead of a bare location
+                return [int(left < Feature(mk_loc(b), feature_type="misc_feature"))]
+            return [int(left < mk_loc(b))]
+        return result(go)
+    if fn == 13:
+        a, b = args
+
+        def go():
+            from antismash.common.secmet.features import CDSCollection
+            return [int(CDSCollection(mk_loc(a), feature_type="region") < mk_loc(b))]
+        return result(go)
     raise ValueError(fn)
 
 
@@ -197,18 +226,28 @@ def encode(fn, args):
         return enc_loc(args[0]) + [args[1], args[2], int(args[3])]
     if fn == 11:
         return enc_loc(args[0]) + [args[1], int(args[2])]
+    if fn == 12:
+        return enc_loc(args[0]) + enc_loc(args[1]) + [int(args[2] == 1)]
+    if fn == 13:
+        return enc_loc(args[0]) + enc_loc(args[1])
     raise ValueError(fn)
 
 
 FN_NAMES = {1: "locations_overlap", 2: "location_contains_other", 3: "get_distance_between_locations",
             4: "location_bridges_origin", 5: "split_origin_bridging_location", 6: "connect_locations",
             7: "offset_location", 8: "Record.extend_location", 9: "make_forwards", 10: "remove_redundant_exons",
-            11: "frameshift_location_by_qualifier"}
+            11: "frameshift_location_by_qualifier", 12: "Feature.__lt__", 13: "CDSCollection.__lt__"}
 
 
 def gen_case(rng):
     n = gen_n(rng)
-    fn = rng.choice([1, 1, 2, 2, 3, 3, 3, 4, 5, 6, 6, 6, 6, 7, 7, 7, 8, 8, 8, 9, 10, 11])
+    fn = rng.choice([1, 1, 2, 2, 3, 3, 3, 4, 5, 6, 6, 6, 6, 7, 7, 7, 8, 8, 8, 9, 10, 11, 12, 13])
+    if fn == 12:
+        a = gen_loc(rng, n)
+        b = list(a) if rng.random() < 0.15 else gen_loc(rng, n)
+        return fn, (a, b, rng.choice([0, 0, 1, 2])), n
+    if fn == 13:
+        return fn, (gen_collection_loc(rng, n), gen_collection_loc(rng, n)), n
     if fn in (1, 2):
         return fn, (gen_loc(rng, n), gen_loc(rng, n)), n
     if fn == 3:
@@ -237,8 +276,49 @@ def gen_case(rng):
     return 11, (a, rng.choice([1, 2, 3, 1, 2, 3, 0, 4]), rng.random() < 0.5), n
 
 
+ARGS_OF = {}   # flat encoding (tuple) -> decoded arguments, for readable replay files
+
+
 def describe(flat):
-    return {"function": FN_NAMES.get(flat[1], flat[1]), "flat_payload": flat[2:]}
+    out = {"function": FN_NAMES.get(flat[1], flat[1]), "flat_payload": flat[2:]}
+    args = ARGS_OF.get(tuple(flat))
+    if args is not None:
+        out["arguments (locations as lists of (start, end, strand); strand 2 = None)"] = args
+    return out
+
+
+def text_round_trip(chk, rng, count):
+    """ independent oracle (no model): location_from_string(str(location)) == location, for exact,
+        '<' and '>' positions, every strand form, 1..4 parts, operators join/order """
+    from antismash.common.secmet.locations import FeatureLocation, CompoundLocation, location_from_string
+    from Bio.SeqFeature import BeforePosition, AfterPosition, ExactPosition
+    bad = None
+    for _ in range(count):
+        n = gen_n(rng)
+        parts = gen_loc(rng, n)
+        strands = [rng.choice([1, -1, 0, None]) for _ in parts] if rng.random() < 0.3 else [strand_to_py(parts[0][2])] * len(parts)
+        fls = []
+        for (s, e, _st), strand in zip(parts, strands):
+            start = rng.choice([ExactPosition, ExactPosition, BeforePosition])(s)
+            end = rng.choice([ExactPosition, ExactPosition, AfterPosition])(e)
+            fls.append(FeatureLocation(start, end, strand))
+        loc = fls[0] if len(fls) == 1 else CompoundLocation(fls, operator=rng.choice(["join", "join", "order"]))
+        chk.count("text_round_trip")
+        chk.evaluations += 1
+        try:
+            back = location_from_string(str(loc))
+            same = (back == loc and str(back) == str(loc) and type(back) is type(loc)
+                    and [type(p.start) for p in back.parts] == [type(p.start) for p in loc.parts]
+                    and [type(p.end) for p in back.parts] == [type(p.end) for p in loc.parts]
+                    and getattr(back, "operator", None) == getattr(loc, "operator", None))
+            err = None
+        except Exception as exc:  # pylint: disable=broad-except
+            same, back, err = False, None, repr(exc)
+        if not same and bad is None:
+            bad = {"theorem_or_correspondence": "text codec oracle: location_from_string(str(l)) == l",
+                   "input": repr(loc), "text": str(loc), "read_back": repr(back), "error": err}
+    if bad:
+        chk.violation("counterexample", "location_from_string(str(location)) differs from the location", bad)
 
 
 def nontrivial(fn, args):
@@ -249,8 +329,127 @@ def nontrivial(fn, args):
 
 
 RULE = ("random structured locations (simple / multi-exon / origin-spanning, strands +,-,0,None) on records of "
-        "length 2..60 (and a few large), for each public function of secmet.locations and Record.extend_location; "
-        "non-trivial = a compound location is involved or the function is connect/offset/extend; distinct by flat encoding")
+        "length 2..60 (and a few large), for each public function of secmet.locations, Record.extend_location, "
+        "Feature.__lt__ and CDSCollection.__lt__ (model vs implementation), the decidable set-of-bases specification "
+        "evaluated on every implementation output of overlap/contains/distance/connect/offset/extend, and a text "
+        "round-trip oracle; non-trivial = a compound location is involved or the function is connect/offset/extend; "
+        "distinct by flat encoding")
+
+
+SPEC_OFFSET = 100
+SPEC_FNS = (1, 2, 3, 6, 7, 8)
+CLAUSES = {
+    1: {1: "overlap <-> the two locations share a base"},
+    2: {1: "contains <-> every part of the inner lies inside one part of the outer"},
+    3: {1: "distance = 0 when sharing a base, else the minimum over part pairs of the bases between (shorter way round on a ring)"},
+    6: {1: "connect raised on well-formed inputs", 2: "result is not a well-formed span (non-empty parts inside the record, "
+           "at most two, the second starting at 0, disjoint)", 3: "on a line the result is not the exact hull",
+        4: "result does not cover every input base", 5: "result longer than the linear hull although no input wraps",
+        6: "an arc shorter than half the record covers all inputs but the result is longer than it"},
+    7: {1: "offset raised on a well-formed input", 2: "result parts empty or outside the record", 3: "result parts overlap",
+        4: "length changed", 5: "strand changed", 6: "bases of the result are not the rotated bases of the input"},
+    8: {1: "extend raised on a well-formed input", 2: "result parts empty or outside the record", 3: "result parts overlap",
+        6: "bases of the result are not exactly the bases within the distance"},
+}
+
+
+# recorded finding classes: (function, class number computed in Gallina by fn 208) -> (class name, clause it violates)
+FINDING_CLASSES = {(8, 1): ("extend_near_full", 3), (8, 2): ("extend_lower_lost", 6)}
+CLASS_FN = {8: 208}
+WITNESSES = {  # class name -> (fn, args) replayed on the implementation every run
+    "extend_near_full": (8, ([(3, 4, NONE), (0, 3, NONE)], 2, 4, True)),
+    "extend_lower_lost": (8, ([(0, 1, NONE), (3, 4, NONE)], 2, 4, True)),
+}
+
+
+def known_classes():
+    return {f["class"]: f for f in common.load_known_findings("C04") if f.get("status") == "known"}
+
+
+def suppress_known(chk, cases, impl_outs, model_outs, failing):
+    """ a specification failure is attributed to a recorded finding only if the input lies in the
+        finding's class (computed in Gallina), the class is listed with status known, the violated
+        clause is the recorded one and the implementation still behaves exactly like the faithful model """
+    known = known_classes()
+    todo = [(size, i, v) for size, i, v in failing if cases[i][1] in CLASS_FN]
+    classes = common.run_driver([[cases[i][0], CLASS_FN[cases[i][1]]] + cases[i][2:] for _s, i, _v in todo])
+    class_of = {i: c[0] for (_s, i, _v), c in zip(todo, classes)}
+    kept = []
+    for size, i, verdict in failing:
+        name, clause = FINDING_CLASSES.get((cases[i][1], class_of.get(i, 0)), (None, None))
+        if name and name in known and verdict[1] == clause and impl_outs[i] == model_outs[i]:
+            chk.count("known_finding_class_" + name)
+            continue
+        kept.append((size, i, verdict))
+    # the stored witnesses, replayed on the implementation
+    for name, (fn, args) in WITNESSES.items():
+        if name not in known:
+            continue
+        out = impl(fn, args)
+        verdict = common.run_driver([[PROP, fn + SPEC_OFFSET] + encode(fn, args) + out])[0]
+        if verdict[0] == 0:
+            chk.known(known[name].get("what_fails", name))
+        else:
+            chk.count("known_finding_no_longer_reproduces_" + name)
+    return kept
+
+
+def order_finding(chk):
+    """ recorded finding collection_lt_not_asymmetric (theorem C04_order_collection_refuted): printed only while
+        listed as known and the witness still reproduces on the implementation; the model is compared with
+        the implementation on the witness like on any other case (function 13) """
+    entry = known_classes().get("collection_lt_not_asymmetric")
+    whole, span = [(0, 10, 1)], [(7, 10, 1), (0, 2, 1)]
+    outs = [impl(13, (whole, span)), impl(13, (span, whole))]
+    reproduces = outs == [[0, 1], [0, 1]]
+    if reproduces and entry:
+        chk.known(entry.get("what_fails", "collection_lt_not_asymmetric"))
+    elif reproduces:
+        chk.violation("counterexample", "CDSCollection.__lt__ is not asymmetric: whole-record collection < origin-spanning "
+                      "location and origin-spanning collection < whole-record location",
+                      {"theorem_or_correspondence": "C04_order_collection_refuted", "function": 13,
+                       "input": {"record_length": 10, "a": whole, "b": span}, "implementation": outs})
+    else:
+        chk.count("known_finding_no_longer_reproduces_collection_lt_not_asymmetric")
+
+
+def spec_search(chk, cases, impl_outs, model_outs):
+    """ failing-input search: the decidable set-of-bases specification (Gallina, function id + 100) is
+        evaluated on the implementation's output of EVERY case of the six specified operations """
+    idx = [i for i, c in enumerate(cases) if c[1] in SPEC_FNS]
+    spec_cases = [[cases[i][0], cases[i][1] + SPEC_OFFSET] + cases[i][2:] + impl_outs[i] for i in idx]
+    verdicts = common.run_driver(spec_cases)
+    failing = []
+    for i, verdict in zip(idx, verdicts):
+        fn = cases[i][1]
+        kind = {1: "spec_ok", 0: "spec_violated", 2: "spec_precondition_unmet"}.get(verdict[0], "spec_undecoded")
+        chk.count(kind)
+        if verdict[0] == 0:
+            chk.count(f"spec_violated_{FN_NAMES[fn]}_clause{verdict[1]}")
+            failing.append((len(cases[i]), i, verdict))
+        elif verdict[0] not in (1, 2):
+            chk.violation("broken-correspondence", f"specification of {FN_NAMES[fn]} could not decode a case",
+                          {"theorem_or_correspondence": "spec decoding", "flat": spec_cases[idx.index(i)]})
+            return
+    chk.extra["spec_evaluated"] = len(idx)
+    chk.extra["spec_violations"] = len(failing)
+    failing = suppress_known(chk, cases, impl_outs, model_outs, failing)
+    chk.extra["spec_violations_in_recorded_finding_classes"] = chk.extra["spec_violations"] - len(failing)
+    failing.sort()
+    reported = set()
+    for _size, i, verdict in failing:
+        fn = cases[i][1]
+        key = (fn, verdict[1])
+        if key in reported:
+            continue
+        reported.add(key)
+        clause = CLAUSES.get(fn, {}).get(verdict[1], str(verdict[1]))
+        chk.violation("counterexample", f"{FN_NAMES[fn]}: {clause}",
+                      {"theorem_or_correspondence": f"C04 specification of {FN_NAMES[fn]} (clause {verdict[1]})",
+                       "function": fn, "flat": cases[i], "input": describe(cases[i]),
+                       "implementation": impl_outs[i], "model": model_outs[i],
+                       "spec_verdict_on_implementation_output": verdict,
+                       "cases_violating_this_clause": sum(1 for _s, j, v in failing if (cases[j][1], v[1]) == key)})
 
 
 def run(chk):
@@ -261,6 +460,7 @@ def run(chk):
     for _ in range(total):
         fn, args, n = gen_case(chk.rng)
         flat = [PROP, fn] + encode(fn, args)
+        ARGS_OF[tuple(flat)] = args
         out = impl(fn, args)
         cases.append(flat)
         impl_outs.append(out)
@@ -269,7 +469,10 @@ def run(chk):
             chk.count("error_kind_" + common.ERR_NAME.get(out[1], str(out[1])))
         chk.note_case(flat, nontrivial(fn, args),
                       {"function": FN_NAMES[fn], "args": args, "record_length": n, "implementation": out})
-    model_outs = common.correspondence(chk, cases, impl_outs, spec_fn_offset=None, describe=describe)
+    model_outs = common.correspondence(chk, cases, impl_outs, spec_fn_offset=SPEC_OFFSET, describe=describe)
+    spec_search(chk, cases, impl_outs, model_outs)
+    order_finding(chk)
+    text_round_trip(chk, chk.rng, 3000 if chk.tier == "quick" else 60000)
     chk.crosscheck_vm(cases, model_outs)
     return chk.finish(RULE)
 
